@@ -108,6 +108,13 @@ func H_chainw(id, t, w int) {
 	vChainFrom(vParserByID(id), vTpl(t, w), 0, len(vTemplates[t].pre))
 }
 
+// H_chain_at: every chunk schedule of a template placed at offset k (two
+// symbolic bytes in front of it).
+func H_chain_at(id, t, w, k int) {
+	junk := vBytes(2)
+	vChain(vParserByID(id), vPad(k, junk, vTpl(t, w)), k)
+}
+
 func H_premature(id, t, w int) {
 	vPremature(vParserByID(id), vTpl(t, w), 0)
 }
